@@ -56,7 +56,12 @@ func NewConn(s Script) *Conn { return &Conn{S: s, ClosedAt: -1} }
 
 var ErrClosed = errors.New("use of closed network connection")
 
+// OnTransport is called at every transport operation (the harness resets the
+// loop-iteration budget there).
+var OnTransport = func() {}
+
 func (c *Conn) Read(p []byte) (int, error) {
+	OnTransport()
 	if c.Closes > 0 {
 		return 0, ErrClosed
 	}
@@ -99,6 +104,7 @@ func (c *Conn) Read(p []byte) (int, error) {
 }
 
 func (c *Conn) Write(p []byte) (int, error) {
+	OnTransport()
 	if c.Closes > 0 {
 		return 0, ErrClosed
 	}
